@@ -34,6 +34,15 @@ def parseUsize (s : String) : Option Nat :=
     let n := ds.foldl (fun acc c => acc * 10 + (c.toNat - '0'.toNat)) 0
     if n < 18446744073709551616 then some n else none
 
+/-- the generic parser of an unsigned integer below `lim`: an optional `+`, one or more digits -/
+def parseBelow (lim : Nat) (s : String) : Option Nat :=
+  let cs := s.toList
+  let ds := match cs with | '+' :: r => r | _ => cs
+  if ds.isEmpty || !ds.all Char.isDigit then none
+  else
+    let n := ds.foldl (fun acc c => acc * 10 + (c.toNat - '0'.toNat)) 0
+    if n < lim then some n else none
+
 variable {α : Type}
 
 /-- the entry to visit next, the others, and the rest of the oracle -/
